@@ -12,8 +12,8 @@ import (
 func init() {
 	register(&Property{
 		Meta: PropMeta{
-			ID:    "C14",
-			Level: "other",
+			ID:          "C14",
+			Level:       "other",
 			Explanation: "Structural necessary conditions of robust, located INI reading, decided on the SSA of /repo for all paths: (NP) the no-panic prover over every function reachable from IniParser.Parse/ParseFile; (LINENO) the line counter of readIni starts at the constant 0, every back edge of the read loop carries the same `counter + 1` (so it is bumped exactly once per line, before any `continue`), and every consumer uses the bumped value; (LOCATED) every IniError literal in the package stores LineNumber — the bumped counter in readIni, the entry's recorded line in IniParser.parse — and every iniValue literal records the bumped counter; every non-nil error returned by IniParser.parse is an IniError literal or the ErrUnknownGroup constructor; (CLASSIFY) header and key=value handling are reachable only for non-empty lines not starting with ';' or '#', and section name, key and value are TrimSpace results; (LONGLINE) in readFullLine the accumulated line is extended only by append(line, chunk...) of the chunk just read and every returned string is a fresh conversion of the accumulated line or, for a first and final chunk, of that chunk; (UNKNOWN) the unknown-section and unknown-option failures require ¬IgnoreUnknown, and the IgnoreUnknown branches stay inside their loop (continue, not break); (PROGRESS) each read loop consumes input in its header block.",
 			NotDecided:  "that noise lines leave the meaning of other lines unchanged (a relation over values); CRLF handling is bufio.Reader.ReadLine's (trusted); termination on an endless reader.",
 			Trusted:     []string{"go/ssa lowering", "go/types", "bufio.Reader.ReadLine contract (a returned chunk is valid only until the next call; isPrefix signals continuation)", "strings/strconv preconditions"},
@@ -67,8 +67,118 @@ func runC14(c *Ctx, r *Report, tier string) {
 		}
 	}
 	fname := c.fname(ri)
+	var cellBump *ssa.Store // cell form: the counter is a variable captured by a closure
 	if counter == nil {
-		r.Fail("LINENO", fname, "line counter", "", "no uint loop-carried variable found in readIni")
+		var cell *ssa.Alloc
+		for _, b := range ri.Blocks {
+			for _, in := range b.Instrs {
+				if al, ok := in.(*ssa.Alloc); ok {
+					if bt, ok := al.Type().(*types.Pointer).Elem().Underlying().(*types.Basic); ok && bt.Kind() == types.Uint {
+						cell = al
+					}
+				}
+			}
+		}
+		if cell == nil {
+			r.Fail("LINENO", fname, "line counter", "", "no uint loop-carried variable found in readIni")
+		} else {
+			stores, esc := c.cellStores(cell)
+			var inc []*ssa.Store
+			okInit := !esc
+			for _, st := range stores {
+				if k, ok := constInt(st.Val); ok && k == 0 && st.Parent() == ri {
+					continue
+				}
+				inc = append(inc, st)
+			}
+			var why []string
+			okBack := len(inc) == 1
+			if okBack {
+				st := inc[0]
+				bo, ok := st.Val.(*ssa.BinOp)
+				isLoad := func(v ssa.Value) bool {
+					u, ok := v.(*ssa.UnOp)
+					if !ok || u.Op != token.MUL {
+						return false
+					}
+					root, _ := c.cellRoot(u.X)
+					return root == ssa.Value(cell)
+				}
+				if !ok || bo.Op != token.ADD || !isLoad(bo.X) {
+					okBack = false
+					why = append(why, "the counter is assigned "+c.term(st.Val))
+				} else if k, ok := constInt(bo.Y); !ok || k != 1 {
+					okBack = false
+					why = append(why, "step "+c.term(bo.Y))
+				}
+				for _, l := range loops {
+					if l.Blocks[st.Block()] && (mainLoop == nil || len(l.Blocks) > len(mainLoop.Blocks)) {
+						mainLoop = l
+					}
+				}
+				if mainLoop == nil || st.Parent() != ri {
+					okBack = false
+					why = append(why, "the increment is not in the read loop")
+				} else {
+					// every trip around the loop passes the increment
+					q := &PathQ{c: c, Fn: ri, CutIn: isInstr(st)}
+					latchEnd := func(x ssa.Instruction) bool {
+						b := x.Block()
+						if x != b.Instrs[len(b.Instrs)-1] || !mainLoop.Blocks[b] {
+							return false
+						}
+						for _, s := range b.Succs {
+							if s == mainLoop.Header {
+								return true
+							}
+						}
+						return false
+					}
+					if path, found := q.Reach(Site{mainLoop.Header, 0}, 0, latchEnd); found {
+						okBack = false
+						why = append(why, "an iteration can finish without the increment: "+pathStr(path))
+					}
+					if d, ok := c.NeverTwice(ri, isInstr(st), true, nil); !ok {
+						okBack = false
+						why = append(why, "incremented twice in one iteration: "+d)
+					}
+					cellBump = st
+					bump = st.Val
+					// consumers: loads of the counter (and calls of closures loading it) come after the increment
+					bad := 0
+					consumer := func(in ssa.Instruction) {
+						if !mainLoop.Blocks[in.Block()] {
+							return
+						}
+						q := &PathQ{c: c, Fn: ri, CutIn: isInstr(st)}
+						if _, found := q.Reach(Site{mainLoop.Header, 0}, 0, isInstr(in)); found {
+							bad++
+						}
+					}
+					for _, b := range ri.Blocks {
+						for _, in := range b.Instrs {
+							if u, ok := in.(*ssa.UnOp); ok && isLoad(u) && ssa.Value(u) != bo.X {
+								consumer(in)
+							}
+							if ci, ok := in.(ssa.CallInstruction); ok {
+								if mc, ok := ci.Common().Value.(*ssa.MakeClosure); ok {
+									for _, bnd := range mc.Bindings {
+										if bnd == ssa.Value(cell) {
+											consumer(in)
+										}
+									}
+								}
+							}
+						}
+					}
+					r.Check(bad == 0, "LINENO", fname, "consumers use the bumped value", c.ipos(st), "every read of the counter in the loop (directly or in a closure) comes after the increment of its iteration", fmt.Sprintf("%d reads of the counter can precede the increment", bad))
+				}
+			} else {
+				why = append(why, fmt.Sprintf("%d assignments besides the initialisation", len(inc)))
+			}
+			r.Check(okInit, "LINENO", fname, "counter starts at 0 (so the first line is 1)", c.ipos(cell), "zero-initialised variable whose address does not escape", "the counter's address escapes")
+			r.Check(okBack, "LINENO", fname, "every back edge carries counter+1", c.ipos(cell), "every trip around the read loop passes the single increment exactly once", strings.Join(why, "; "))
+		}
 	} else {
 		okInit, okBack := true, true
 		var why []string
@@ -149,6 +259,15 @@ func runC14(c *Ctx, r *Report, tier string) {
 		what := tn + " literal stores LineNumber"
 		if stored == nil {
 			r.Fail("LOCATED", c.fname(fn), what, c.ipos(in), "literal does not set LineNumber")
+			return
+		}
+		owner := fn
+		for owner.Parent() != nil {
+			owner = owner.Parent()
+		}
+		if owner == ri && cellBump != nil {
+			t := c.term(stored)
+			r.Check(c.resolve(stored) == bump || t == "cell:uint" || t == "(cell:uint + 1)", "LOCATED", c.fname(fn), what, c.ipos(in), "value is the line counter, read after its increment (LINENO)", "LineNumber is "+t)
 			return
 		}
 		switch c.fname(fn) {
